@@ -92,6 +92,7 @@ func checkC08(c *Ctx) {
 	ruleR21(c, dv, "R8.2c")
 	ruleNoteArithmeticAs(c, dv, "AnalogNoteOn", "analogNoteTracker", false, "R8.3")
 	ruleR14analog(c, dv, "R8.6")
+	ruleDispatch(c, dv, "R8.7", false, true) // every axis report reaches the key-emulation switch, whatever its raw value
 	pf := newParserFacts(c)
 	if c.Require(pf.err == nil, "R8.5", "config.ParseData", fmt.Sprint(pf.err)) {
 		leaves := tomlLeaves(c)
@@ -545,7 +546,7 @@ func checkC07(c *Ctx) {
 	// R7.5 writers of the flags
 	var ws []string
 	for _, s := range c.P.writersOfField(dv.fields["ccZeroed"]) {
-		name := topFunc(s.Fn).Name()
+		name := dv.ownerOf(s.Fn).Name()
 		key := "write(Device.ccZeroed)@" + shortFn(s.Fn)
 		ws = append(ws, name)
 		if name == "handleABSEvent" || name == "NewDevice" {
@@ -557,7 +558,7 @@ func checkC07(c *Ctx) {
 	sort.Strings(ws)
 	c.MinCount("R7.1", 5)
 	c.MinCount("R7.4", 1)
-	c.MinCount("R7.5", 4)
+	c.MinCount("R7.5", 2)
 	c.DecidedClause("each of the four side branches (signed / centred-unsigned x negative / positive) sends the active controller with the deflection magnitude on its own channel, explicitly sends 0 to the opposite controller on the opposite channel unless it is already flagged zero, flags it, and un-flags the active one — on every path; side selection compares the shaped value with 0 resp. 0.5; the learning gate precedes every send and lets only |value| > 0.5 through, after the last-value bookkeeping; the flags have no other writer")
 	c.UndecidedClause("numeric values (C06); controllers with the same number on different channels share one flag (outside the stated quantifier)")
 	_ = ssa.Function{}
